@@ -340,8 +340,16 @@ def load_known(prop):
             data = json.load(fh)
     except OSError:
         return []
-    return [f for f in data.get('findings', []) if f.get('property') == prop
-            and f.get('status', 'known') == 'known']
+    out = []
+    for f in data.get('findings', []):
+        if f.get('property') != prop or f.get('status', 'known') != 'known':
+            continue
+        f = dict(f)
+        if f.get('keys_file'):
+            with open(os.path.join(HERE, f['keys_file'])) as fh:
+                f['keys'] = list(f.get('keys', [])) + json.load(fh)['keys']
+        out.append(f)
+    return out
 
 
 def run_single(mod, relname, spec, known_keys=()):
@@ -546,8 +554,9 @@ def main(argv=None):
               f"max_shard_wall={br['wall_s']:.1f}s "
               + ' '.join(f'{k}={v}' for k, v in sorted(br['counters'].items())))
     if excluded:
-        for k, v in sorted(excluded.items()):
-            print(f'  excluded-known {k}: {v}')
+        items = sorted(excluded.items())
+        print(f'  excluded-known: {sum(excluded.values())} hits on '
+              f'{len(items)} listed keys, e.g. {items[0][0]}')
 
     if not a.no_evidence:
         ev = {
@@ -568,7 +577,10 @@ def main(argv=None):
                         'counters': dict(sorted(br['counters'].items()))}
                     for n, br in by_rel.items()},
                 'replayed_regressions': n_replayed,
-                'excluded_known': dict(excluded),
+                'excluded_known': {
+                    'hits': sum(excluded.values()),
+                    'distinct_keys': len(excluded),
+                    'sample_keys': sorted(excluded)[:5]},
                 'known_findings_seen': known_seen,
                 'budget_exhausted_inconclusive': budget,
                 'relations_selected': [r.name for r in rels],
